@@ -68,8 +68,8 @@ type c14Emit struct {
 	in    ssa.Instruction
 	key   string
 	val   string
-	guard []string // boolean conditions (paths) dominating the site with their truth: "+cond" / "-cond"
-	dec   []string // those taken per element: their branch lies strictly inside the outermost loop around the site
+	guard []string        // boolean conditions (paths) dominating the site with their truth: "+cond" / "-cond"
+	dec   []string        // those taken per element: their branch lies strictly inside the outermost loop around the site
 	hdr   *ssa.BasicBlock // header of that loop (nil when the site is in no loop)
 	loop  bool
 }
@@ -187,9 +187,9 @@ func c14Emits(p *core.Program, fn *ssa.Function) []c14Emit {
 					continue // literal / varargs array
 				}
 				{
-				d := decisions(in.Block())
-				out = append(out, c14Emit{"store", in, pc.path(ia.Index), pc.path(x.Val), guards(in.Block()), d, lastHdr, path.InCycle(in.Block())})
-			}
+					d := decisions(in.Block())
+					out = append(out, c14Emit{"store", in, pc.path(ia.Index), pc.path(x.Val), guards(in.Block()), d, lastHdr, path.InCycle(in.Block())})
+				}
 			}
 		case *ssa.Call:
 			if b, ok := x.Call.Value.(*ssa.Builtin); ok {
@@ -201,14 +201,14 @@ func c14Emits(p *core.Program, fn *ssa.Function) []c14Emit {
 						val = pc.path(v)
 					}
 					{
-				d := decisions(in.Block())
-				out = append(out, c14Emit{"append", in, pc.path(x.Call.Args[0]), val, guards(in.Block()), d, lastHdr, path.InCycle(in.Block())})
-			}
+						d := decisions(in.Block())
+						out = append(out, c14Emit{"append", in, pc.path(x.Call.Args[0]), val, guards(in.Block()), d, lastHdr, path.InCycle(in.Block())})
+					}
 				case "delete":
 					{
-				d := decisions(in.Block())
-				out = append(out, c14Emit{"delete", in, pc.path(x.Call.Args[1]), pc.path(x.Call.Args[0]), guards(in.Block()), d, lastHdr, path.InCycle(in.Block())})
-			}
+						d := decisions(in.Block())
+						out = append(out, c14Emit{"delete", in, pc.path(x.Call.Args[1]), pc.path(x.Call.Args[0]), guards(in.Block()), d, lastHdr, path.InCycle(in.Block())})
+					}
 				}
 			}
 		}
@@ -217,13 +217,13 @@ func c14Emits(p *core.Program, fn *ssa.Function) []c14Emit {
 }
 
 type c14Want struct {
-	kind   string
-	key    string
-	val    string
-	guard  string // required dominating decision ("" = none beyond the loop)
-	once   bool   // the emission must be followed by leaving the loop (one entry)
-	depth  int    // with once: number of enclosing loops the site may lie in (0 = one entry in all, 1 = once per element of the outer scan)
-	count  int    // number of such sites expected (default 1)
+	kind  string
+	key   string
+	val   string
+	guard string // required dominating decision ("" = none beyond the loop)
+	once  bool   // the emission must be followed by leaving the loop (one entry)
+	depth int    // with once: number of enclosing loops the site may lie in (0 = one entry in all, 1 = once per element of the outer scan)
+	count int    // number of such sites expected (default 1)
 }
 
 func runC14(p *core.Program, r *core.Report) {
@@ -237,16 +237,16 @@ func runC14(p *core.Program, r *core.Report) {
 		"gogu.MapKeys":       {{kind: "mapupdate", key: "fn(range(m)#1,range(m)#2)", val: "range(m)#2"}},
 		"gogu.MapUnique": {{kind: "mapupdate", key: "range(m)#2", val: "true", guard: "-ok(newmap[range(m)#2])"},
 			{kind: "mapupdate", key: "range(m)#1", val: "range(m)#2", guard: "-ok(newmap[range(m)#2])"}},
-		"gogu.FindByKey":  {{kind: "mapupdate", key: "range(m)#1", val: "range(m)#2", guard: "+fn(range(m)#1)", once: true}},
-		"gogu.FilterMap":  {{kind: "mapupdate", key: "range(m)#1", val: "range(m)#2", guard: "+fn(range(m)#2)"}},
-		"gogu.Invert":     {{kind: "mapupdate", key: "m[each(gogu.Keys(m))]", val: "each(gogu.Keys(m))"}},
-		"gogu.Pick":       {{kind: "mapupdate", key: "range(collection)#1", val: "collection[range(collection)#1]", guard: "+gogu.Contains(keys,range(collection)#1)"}},
-		"gogu.PickBy":     {{kind: "mapupdate", key: "range(collection)#1", val: "collection[range(collection)#1]", guard: "+fn(range(collection)#1,range(collection)#2)"}},
-		"gogu.Omit":       {{kind: "delete", key: "range(collection)#1", val: "collection", guard: "+gogu.Contains(keys,range(collection)#1)"}},
-		"gogu.OmitBy":     {{kind: "delete", key: "range(collection)#1", val: "collection", guard: "+fn(range(collection)#1,range(collection)#2)"}},
-		"gogu.SliceToMap": {{kind: "mapupdate", key: "each(s1)", val: "s2[i:s1]"}},
-		"gogu.Find":       {{kind: "store", key: "iv", val: "range(m)#1"}, {kind: "mapupdate", key: "each(newslice)", val: "m[each(newslice)]", guard: "+fn(m[each(newslice)])", once: true}},
-		"gogu.Pluck":      {{kind: "append", key: "acc", val: "gogu.FindByKey(each(mapSlice),closure)[key]", guard: "+ok(gogu.FindByKey(each(mapSlice),closure)[key])"}},
+		"gogu.FindByKey":             {{kind: "mapupdate", key: "range(m)#1", val: "range(m)#2", guard: "+fn(range(m)#1)", once: true}},
+		"gogu.FilterMap":             {{kind: "mapupdate", key: "range(m)#1", val: "range(m)#2", guard: "+fn(range(m)#2)"}},
+		"gogu.Invert":                {{kind: "mapupdate", key: "m[each(gogu.Keys(m))]", val: "each(gogu.Keys(m))"}},
+		"gogu.Pick":                  {{kind: "mapupdate", key: "range(collection)#1", val: "collection[range(collection)#1]", guard: "+gogu.Contains(keys,range(collection)#1)"}},
+		"gogu.PickBy":                {{kind: "mapupdate", key: "range(collection)#1", val: "collection[range(collection)#1]", guard: "+fn(range(collection)#1,range(collection)#2)"}},
+		"gogu.Omit":                  {{kind: "delete", key: "range(collection)#1", val: "collection", guard: "+gogu.Contains(keys,range(collection)#1)"}},
+		"gogu.OmitBy":                {{kind: "delete", key: "range(collection)#1", val: "collection", guard: "+fn(range(collection)#1,range(collection)#2)"}},
+		"gogu.SliceToMap":            {{kind: "mapupdate", key: "each(s1)", val: "s2[i:s1]"}},
+		"gogu.Find":                  {{kind: "store", key: "iv", val: "range(m)#1"}, {kind: "mapupdate", key: "each(newslice)", val: "m[each(newslice)]", guard: "+fn(m[each(newslice)])", once: true}},
+		"gogu.Pluck":                 {{kind: "append", key: "acc", val: "gogu.FindByKey(each(mapSlice),closure)[key]", guard: "+ok(gogu.FindByKey(each(mapSlice),closure)[key])"}},
 		"gogu.FilterMapCollection":   {{kind: "append", key: "acc", val: "each(collection)", guard: "+fn(range(each(collection))#2)", once: true, depth: 1}},
 		"gogu.Filter2DMapCollection": {{kind: "append", key: "acc", val: "each(collection)", guard: "+fn(range(each(collection))#2)", once: true, depth: 1}},
 	}
